@@ -247,11 +247,84 @@ def rule_bitbuf(ctx):
     ctx.floor(rid + ".bytes-stores", 1)
 
 
+def rule_toc_gather(ctx):
+    """a permuted table of contents reads the offset and the size of a section at the same position"""
+    from ..facts import callee, op_local, op_place
+    from ..mirutil import Defs
+    rid = "R-TOC-GATHER"
+    ctx.rule(rid, "Toc::parse, permuted case: the loop over the permutation (enumerate: counter, element) builds the reported offset and "
+                  "size of every section from the unpermuted vectors.  Offset and size of one section sit at one position, so every "
+                  "element read (Index::index) inside the loop that is indexed by the loop's counter or by its element uses the same of "
+                  "the two - a gather on one vector and a scatter on the other reports another section's offset for every permutation "
+                  "that is not an involution.  Decided on MIR by tracing each index back to the component of the iterator's item")
+    cr = ctx.prog.crate("jxl_frame")
+    fs = [g for g in cr.fn_list if "toc::Toc as" in g.path and g.path.endswith("::parse")]
+    if len(fs) != 1:
+        ctx.anchor_missing(rid, "Toc::parse")
+        return
+    f = fs[0]
+    ctx.seen(f)
+    defs = Defs(f)
+    enum_next = None
+    for b, t in f.calls():
+        c = callee(t)
+        if c and c["fn"].endswith("Iterator::next") and any("Enumerate<" in a and "usize" in a for a in c.get("args", [])):
+            enum_next = (b, t)
+    if enum_next is None:
+        ctx.anchor_missing(rid, "the enumerate() loop over the permutation in Toc::parse")
+        return
+    nb, nt = enum_next
+    opt = nt[3][0]
+    loop = {x for x in f.reachable(nt[4]) if nb in f.reachable(x)}
+
+    def klass(l, depth=0):
+        """'counter' / 'element' when local l is the .0 / .1 component of the item"""
+        seen = set()
+        while l is not None and l not in seen and depth < 20:
+            depth += 1
+            seen.add(l)
+            d = defs.single(l)
+            if not d or d[2] != "assign":
+                return None
+            rv = d[3][2]
+            pl = op_place(rv[1]) if rv[0] == "use" else (rv[2] if rv[0] == "ref" else (op_place(rv[2]) if rv[0] == "cast" else None))
+            if pl is None:
+                return None
+            fl = [e for e in pl[1:] if isinstance(e, list) and e[0] == "."]
+            if pl[0] == opt or (fl and "usize, &usize" in f.local_ty(pl[0]).replace("'_ ", "")):
+                if fl:
+                    k = fl[-1][1]
+                    if k in (0, 1) and ("usize, &" in f.local_ty(pl[0]) or pl[0] == opt):
+                        return "counter" if k == 0 else "element"
+            l = pl[0]
+        return None
+
+    reads = []
+    for b, t in f.calls():
+        c = callee(t)
+        if b in loop and c and c["fn"].endswith("ops::index::Index::index") and len(t[2]) == 2:
+            k = klass(op_local(t[2][1]))
+            if k:
+                reads.append((k, c.get("args", ["?"])[0], t))
+    ctx.count(rid + ".reads", len(reads))
+    if len(reads) < 2:
+        ctx.anchor_missing(rid, "two element reads indexed by the permutation loop's item in Toc::parse")
+        return
+    kinds = {k for k, _, _ in reads}
+    if len(kinds) == 1:
+        ctx.ok(rid, "gather-consistent", "%d reads, all indexed by the loop's %s" % (len(reads), kinds.pop()), nontrivial=True, fn=f)
+    else:
+        odd = [r for r in reads if r[0] != reads[0][0]][0]
+        ctx.bad(rid, "gather-inconsistent", "inside the permutation loop %s is read at the loop's %s while %s is read at its %s: offset and size "
+                "of one section are taken from different positions" % (odd[1], odd[0], reads[0][1], reads[0][0]), fn=f, pos=odd[2][-2])
+
+
 def main(pid, tier, repo=None):
     ctx = Ctx(pid, tier, configs=("workspace",), repo=repo)
     rule_bitspec(ctx)
     rule_hdrpred(ctx)
     rule_bitbuf(ctx)
+    rule_toc_gather(ctx)
     specconst.run(ctx, pid)
     from . import enummap
     enummap.run(ctx, pid)
